@@ -25,6 +25,8 @@ import Hw.Topo.StageMemoryDump
 import Hw.Topo.StageUnique
 import Hw.Topo.RenderCover
 import Hw.Topo.StageSetsMerge
+import Hw.Topo.RestrictMerge
+import Hw.Topo.RenderTop
 namespace Hw.Props.C01
 open Hw.Topo
 
@@ -657,6 +659,38 @@ example : setQT exKs = true ∧ tightT exKs = true ∧ (objsT (keepStructure exK
 (cpuset of the Core) lands below the Machine after the merge and no longer shares its parent's cpuset -/
 def exKsBad : Tree := exN 1 tMACHINE 3 1 [exN 2 tPACKAGE 3 1 [exN 3 tCORE 1 1 [exN 4 tPU 1 1 [] [] [] []] [exN 7 tNUMA 1 1 [] [] [] []] [] []] [] [] []] [] [] []
 example : setQT exKsBad = true ∧ tightT exKsBad = false ∧ setWT (keepStructure exKsFilters exKsBad) = false := by decide +kernel
+
+
+/-- **`puLeafT` and the Machine root through level merging** (the two conditional parts of C01_pipeline_compose (b), discharged): if PU and
+Machine are not filtered KEEP_STRUCTURE (hwloc_topology_set_type_filter refuses it), gp_index values are pairwise distinct in the tree
+`t0` handed to `remove_empty`, `t0` is typed with a Machine root and PUs are leaves in the tree `t1` that `remove_empty` leaves, then in the
+final tree PUs are still leaves and the root object is still the one of `t0`; so EVERY object of the rendered dump satisfies
+no-children-where-forbidden, and root-is-machine and level0-is-root hold. -/
+theorem C01_pipeline_pu_leaf_and_root (filters : List Nat) (hdr : Hdr) (ex : RObj → Extra) (t0 t1 : Tree)
+    (hPU : filterOf filters tPU ≠ Hw.Gen.Restrict.filterKeepStructure) (hM : filterOf filters tMACHINE ≠ Hw.Gen.Restrict.filterKeepStructure)
+    (hu : ((objsT t0).map (·.gp)).Nodup) (hty : typedT t0 = true) (hroot : t0.obj.type = tMACHINE)
+    (h1 : removeEmpty t0 = some t1) (hl : puLeafT t1 = true) :
+    puLeafT (keepStructure filters t1) = true ∧ (keepStructure filters t1).obj = t0.obj ∧
+    (∀ o ∈ (render (keepStructure filters t1) hdr ex).objs,
+      objClause "no-children-where-forbidden" (render (keepStructure filters t1) hdr ex) (mkAux (render (keepStructure filters t1) hdr ex)) o = true) ∧
+    topClause "root-is-machine" (render (keepStructure filters t1) hdr ex) (mkAux (render (keepStructure filters t1) hdr ex)) = true ∧
+    topClause "level0-is-root" (render (keepStructure filters t1) hdr ex) (mkAux (render (keepStructure filters t1) hdr ex)) = true := by
+  have ht1 := removeEmpty_typed _ t1 h1 hty
+  have hr1 : t1.obj.type = tMACHINE := by rw [ht1.2, hroot]
+  have hn1 : isNormal t1.obj.type = true := by rw [hr1]; decide
+  have hu1 : ((objsT t1).map (·.gp)).Nodup := gp_nodup_of_cnt _ _ (fun k => cnt_removeEmpty (·.gp) k t0 t1 h1) hu
+  have hk := keepStructure_pu filters hPU t1 (by rw [hr1]; exact hM) hu1 ht1.1 hn1 hl
+  have ht2 := typed_keepStructure filters t1 ht1.1 hn1
+  have hm2 : (keepStructure filters t1).obj.type = tMACHINE := by rw [hk.2.1, hr1]
+  exact ⟨hk.1, hk.2.1.trans ht1.2, fun o ho => render_no_children_where_forbidden _ ht2.1 hk.1 hdr ex o ho,
+    render_root_is_machine _ hm2 hdr ex, render_level0_is_root _ hm2 hdr ex⟩
+
+/-- non-vacuity of C01_pipeline_pu_leaf_and_root on `exKs` (nothing is removed by remove_empty; two levels are merged) -/
+example : filterOf exKsFilters tPU ≠ Hw.Gen.Restrict.filterKeepStructure ∧ filterOf exKsFilters tMACHINE ≠ Hw.Gen.Restrict.filterKeepStructure ∧
+    ((objsT exKs).map (·.gp)).Nodup ∧ typedT exKs = true ∧ exKs.obj.type = tMACHINE ∧ (removeEmpty exKs).map (fun t => puLeafT t) = some true ∧
+    puLeafT (keepStructure exKsFilters exKs) = true := by decide +kernel
+/-- the key hypothesis of C01_pipeline_no_new_object for the keys used here -/
+example : (∀ o co : RObj, (absorb o co).gp = co.gp) ∧ (∀ o co : RObj, tyOs (absorb o co) = tyOs co) := ⟨fun _ _ => rfl, fun _ _ => rfl⟩
 
 end Stages
 
